@@ -12,6 +12,11 @@ todo = [m for m in M if (not want or m["property"] in want) and (not names or m[
 # independently written changes (seeded/<id>/patch.diff) are replayed the same way
 for d in sorted((VERIF / "seeded").glob("C*")):
     prop = d.name.split("_")[0]
+    meta = json.loads((d / "meta.json").read_text()) if (d / "meta.json").exists() else {}
+    if meta.get("superseded_by_fix"):
+        # written against a tree that has since been repaired in a way that makes the change harmless or inapplicable
+        print(f"{prop} seeded/{d.name:38s} SUPERSEDED     by fix {meta['superseded_by_fix']}: not replayed")
+        continue
     if (not want or prop in want) and (not names or d.name in names or "seeded/" + d.name in names):
         todo.append({"name": "seeded/" + d.name, "property": prop, "patch": str(d / "patch.diff")})
 
